@@ -13,10 +13,10 @@ Log(rec) == hist' = Append(hist, rec)
 GenInit == Init /\ hist = << [a |-> "init", origin0 |-> origin] >>
 
 \* keep walks busy with requests: at most two consecutive environment steps
-EnvRun == IF Len(hist) >= 2 THEN hist[Len(hist)].a \in {"shift", "evict", "ochange", "unlink"} /\ hist[Len(hist) - 1].a \in {"shift", "evict", "ochange", "unlink"}
+EnvRun == IF Len(hist) >= 2 THEN hist[Len(hist)].a \in {"shift", "evict", "ochange", "unlink", "policy"} /\ hist[Len(hist) - 1].a \in {"shift", "evict", "ochange", "unlink", "policy"}
           ELSE FALSE
 
-GenNext ==
+GenFixedPolicy ==
     \/ \E c \in Clients, r \in Res, k \in Kinds, cd \in Conds :
           Send(c, r, k, cd) /\ Log(Rec("send", c, r, k, cd, 0, FALSE, 0, "", ""))
     \/ \E x \in 1..MaxX, s \in {200, 206, 304, 404, 416, 500}, st \in BOOLEAN :
@@ -36,6 +36,10 @@ GenNext ==
           /\ contacts[x].open /\ contacts[x].reval /\ ~store[contacts[x].r].present
           /\ Reply(x, 304, FALSE, contacts[x].leader /\ contacts[x].kind = "get")
           /\ Log(Rec("reply", contacts[x].oc, contacts[x].r, contacts[x].kind, "", 304, FALSE, 0, "", ""))
+
+\* a change of the policy switches in the middle of the history (several copies: the simulator picks among successors)
+GenNext == (GenFixedPolicy /\ UNCHANGED pol)
+           \/ \E i, f \in BOOLEAN, w \in 1..2 : ~EnvRun /\ SetPolicy(i, f) /\ Log([a |-> "policy", icc |-> i, fd |-> f])
 
 GenSpec == GenInit /\ [][GenNext]_<<vars, hist>>
 PrintHist == (TLCGet("level") # Depth) \/ PrintT(<<"HIST", ToJson(hist)>>)
